@@ -14,7 +14,7 @@ for i, a in enumerate(sys.argv):
     if a == "--props": props = sys.argv[i + 1].split(",")
 meta = json.load(open(os.path.join(d, "meta.json")))
 props = props or [meta["property"]]
-wt = "/tmp/seedwt_" + name
+wt = "/tmp/seedwt_%s_%d" % (name, os.getpid())
 subprocess.run(["git", "-C", "/repo", "worktree", "remove", "--force", wt], capture_output=True)
 subprocess.run(["git", "-C", "/repo", "worktree", "add", "-q", "--detach", wt, "HEAD"], check=True)
 res = {"tier": tier, "repo_head": subprocess.run(["git", "-C", "/repo", "rev-parse", "--short", "HEAD"], capture_output=True, text=True).stdout.strip(), "checks": {}}
